@@ -43,7 +43,9 @@ AX_SIG = {
     "crossProductAxis": r"CoordinateAxis crossProductAxis\( const CoordinateAxis& axis2 \) const\s*",
 }
 
-ROT_METHODS = ["setRotationFromAngleAboutX", "setRotationFromAngleAboutY", "setRotationFromAngleAboutZ", "setRotationFromAngleAboutAxis",
+CONV_METHODS = ["convertOneAxisRotationToOneAngle", "convertTwoAxesRotationToTwoAngles", "convertThreeAxesRotationToThreeAngles",
+                "convertTwoAxesBodyFixedRotationToTwoAngles", "convertTwoAxesBodyFixedRotationToThreeAngles", "convertThreeAxesBodyFixedRotationToThreeAngles"]
+ROT_METHODS = CONV_METHODS + ["setRotationFromAngleAboutX", "setRotationFromAngleAboutY", "setRotationFromAngleAboutZ", "setRotationFromAngleAboutAxis",
                "setRotationFromTwoAnglesTwoAxes", "setRotationFromThreeAnglesThreeAxes",
                "setTwoAngleTwoAxesBodyFixedForwardCyclicalRotation", "setThreeAngleTwoAxesBodyFixedForwardCyclicalRotation",
                "setThreeAngleThreeAxesBodyFixedForwardCyclicalRotation", "setRotationFromQuaternion", "convertRotationToQuaternion",
@@ -93,6 +95,16 @@ def build(ctx):
     rot(ROT_CPP, r"Rotation_<P>::convertRotationToQuaternion\(\) const\s*", "convertRotationToQuaternion")
     rot(ROT_CPP, r"Rotation_<P>::reexpressSymMat33\(const SymMat33P& S_BB\) const\s*", "reexpressSymMat33",
         extra=lambda b: b.replace("R.template getSubMat<3,2>(0,0)", "R.getSubMat(3,2,0,0)").replace("this->asMat33()", "self.asMat33()"))
+    for nm in CONV_METHODS:
+        rot(ROT_CPP, r"Rotation_<P>::%s\s*\([^)]*\)\s*const\s*" % nm, nm)
+    QUAT_CPP = os.path.join(REPO, "SimTKcommon/Mechanics/src/Quaternion.cpp")
+    class Quat(S.Vec):
+        pass
+    B.ns["Quat"] = Quat
+    B.add_method(Quat, QUAT_CPP, r"Quaternion_<P>::convertQuaternionToAngleAxis\(\) const\s*", "convertQuaternionToAngleAxis",
+                 extra_pre=lambda b: b.replace("this->template getSubVec<3>(1)", "self.getSubVec(3,1)").replace("(*this)[0]", "self[0]")
+                                      .replace("NTraits<P>::getEps()", "EPS_CONST").replace("NTraits<P>::getPi()", "PI_CONST"),
+                 cxxname="Quaternion_<P>::convertQuaternionToAngleAxis")
     B.dump_sources()
     return B, CoordinateAxis, Rot
 
@@ -180,6 +192,7 @@ def main(ctx):
             B.prove_eq(nm + " == product of elementary rotations", R, oracle, side, U3, "setRotationFromThreeAnglesThreeAxes")
             if ctx.tier == "thorough" or (i != j and j != k):
                 proper(nm, R, side, U3, "setRotationFromThreeAnglesThreeAxes")
+    converters(ctx, B, CA, Rot, th)
     # ---------------- quaternion ----------------
     U4 = "rot.quaternion"
     S.reset_env()
@@ -233,7 +246,7 @@ def main(ctx):
     ctx.assume("machine arithmetic treated as mathematical (reals); float tolerances are not covered")
     ctx.assume("symlib shim gives Mat/Vec/Row/SymMat operators and constructors their textbook meaning; angle sums use the addition formulas")
     ctx.assume("the three-axis oracle is the documented convention: body-fixed = R1*R2*R3 (left to right), space-fixed = R3*R2*R1")
-    ctx.not_decided += ["float-precision tolerances and single precision", "angle extraction (atan2) round trips convert*ToAngles",
+    ctx.not_decided += ["float-precision tolerances and single precision", "angle extraction within the tolerance band around a singularity (only the exact singularity is proved) and for sequences with repeated adjacent axes (angle/2, angle/3)",
                         "setRotationFromApproximateMat33 closest-rotation fit", "setRotationFromAngleAboutUnitVector (half-angle trig via Quaternion.cpp)",
                         "Transform/InverseRotation/UnitVec::perp", "float branch selection in convertRotationToQuaternion (each branch is proved under its own condition)"]
     ctx.explanation = "%d functions transliterated; %d obligations." % (len(ctx.functions), len(ctx.obligations))
@@ -241,6 +254,113 @@ def main(ctx):
 
 
 _EXE = {}
+
+
+def converters(ctx, B, CA, Rot, th):
+    """angle-extraction round trips: angles -> R (documented product) -> convert...ToAngles -> R' == R, on every branch.
+    atan2 enters through its defining equations (symlib.atan2_); at the singular branches the round trip is exact only at the
+    exact singularity (sin/cos of the middle angle == 0), which is then a hypothesis (the tolerance band is a float matter)."""
+    U = "rot.toangles"
+    names = "XYZ"
+    eps = z3.Real("Eps")
+    B.ns["Eps"] = D(eps)
+    FN3 = "convertThreeAxesRotationToThreeAngles"
+    T = 40000
+    def setR(M):
+        R = Rot(); R.assign(M); return R
+    for bs, bsn in ((0, "body"), (1, "space")):
+        for i, j, k in itertools.product(range(3), repeat=3):
+            if i == j or j == k:
+                continue                      # repeated adjacent axes use angle/2, angle/3: outside the (cos,sin) abstraction
+            two_axis = (i == k)
+            nm = "%s %s%s%s" % (bsn, names[i], names[j], names[k])
+            seen = set(); npaths = 0
+            def run():
+                S.reset_env()
+                S.ENV.assume(eps > 0)
+                t = [Angle("t%d" % q_) for q_ in range(3)]
+                o = elem_rot(i, t[0]) * elem_rot(j, t[1]) * elem_rot(k, t[2]) if bs == 0 else elem_rot(k, t[2]) * elem_rot(j, t[1]) * elem_rot(i, t[0])
+                R0 = setR(o)
+                ang = R0.convertThreeAxesRotationToThreeAngles(bs, CA(i), CA(j), CA(k))
+                return t, R0, ang
+            for path, script, (t, R0, ang) in B.run_paths(run, 2):
+                key = tuple(str(c_) for c_ in path)
+                if key in seen: continue
+                seen.add(key)
+                singular = bool(path) and "Not" in str(path[0])[:4]
+                hyp = list(path)
+                if singular:                   # exact gimbal lock only
+                    hyp.append((t[1].s == 0) if two_axis else (t[1].c == 0))
+                s_ = z3.Solver(); s_.set("timeout", 10000); s_.add(*(list(S.ENV.side) + hyp))
+                if s_.check() == z3.unsat: continue
+                npaths += 1
+                R1 = Rot(); R1.setRotationFromThreeAnglesThreeAxes(bs, ang[0], CA(i), ang[1], CA(j), ang[2], CA(k))
+                B.prove_eq("%s branch %d%s: R(convertToAngles(R)) == R" % (nm, npaths, " (exact singularity)" if singular else ""), R1, R0, hyp, U, FN3, timeout_ms=T)
+            if npaths < 3:
+                ctx.undecide("%s: only %d feasible branches of the angle extraction explored" % (nm, npaths))
+    # two-angle sequences
+    FN2 = "convertTwoAxesRotationToTwoAngles"
+    for bs, bsn in ((0, "body"), (1, "space")):
+        for i, j in itertools.product(range(3), repeat=2):
+            if i == j: continue
+            nm = "%s %s%s" % (bsn, names[i], names[j])
+            seen = set(); npaths = 0
+            def run2():
+                S.reset_env()
+                t = [Angle("t%d" % q_) for q_ in range(2)]
+                o = elem_rot(i, t[0]) * elem_rot(j, t[1]) if bs == 0 else elem_rot(j, t[1]) * elem_rot(i, t[0])
+                R0 = setR(o)
+                return t, R0, R0.convertTwoAxesRotationToTwoAngles(bs, CA(i), CA(j))
+            for path, script, (t, R0, ang) in B.run_paths(run2, 4):
+                key = tuple(str(c_) for c_ in path)
+                if key in seen: continue
+                seen.add(key)
+                s_ = z3.Solver(); s_.set("timeout", 5000); s_.add(*(list(S.ENV.side) + path))
+                if s_.check() == z3.unsat: continue
+                npaths += 1
+                R1 = Rot(); R1.setRotationFromTwoAnglesTwoAxes(bs, ang[0], CA(i), ang[1], CA(j))
+                B.prove_eq("%s sign-branch %d: R(convertToTwoAngles(R)) == R" % (nm, npaths), R1, R0, list(path), U, FN2, timeout_ms=T)
+    # one-angle
+    for k_ in range(3):
+        S.reset_env()
+        t0 = Angle("t0")
+        R0 = setR(elem_rot(k_, t0))
+        a = R0.convertOneAxisRotationToOneAngle(CA(k_))
+        R1 = Rot(); R1.setRotationFromAngleAboutAxis(a, CA(k_))
+        B.prove_eq("%s: R(convertOneAxisRotationToOneAngle(R)) == R" % names[k_], R1, R0, [], U, "convertOneAxisRotationToOneAngle", timeout_ms=T)
+    # quaternion -> angle-axis describes the same rotation (Rodrigues oracle)
+    U6 = "quat.angleaxis"
+    Quat = B.ns["Quat"]
+    B.ns["PI_CONST"] = S.PiMult(1)
+    eps2 = z3.Real("EpsQ"); B.ns["EPS_CONST"] = D(eps2)
+    seen = set(); npaths = 0
+    def runq():
+        S.reset_env()
+        S.ENV.assume(eps2 > 0)
+        qv = [z3.Real("p%d" % q_) for q_ in range(4)]
+        return qv, Quat(*qv).convertQuaternionToAngleAxis()
+    for path, script, (qv, av) in B.run_paths(runq, 2):
+        key = tuple(str(c_) for c_ in path)
+        if key in seen: continue
+        seen.add(key)
+        p_ = Vec(*qv)
+        hyp = [val(p_.normSqr()) == 1] + list(path)
+        small = bool(path) and "Not" not in str(path[0])[:4]
+        if small:
+            hyp.append(z3.And(qv[1] == 0, qv[2] == 0, qv[3] == 0))       # exact identity rotation only
+        s_ = z3.Solver(); s_.set("timeout", 10000); s_.add(*(list(S.ENV.side) + hyp))
+        if s_.check() == z3.unsat: continue
+        npaths += 1
+        ang, ax = av[0], Vec(av[1], av[2], av[3])
+        c_, s__ = cos(ang), sin(ang)
+        aaT = Mat([[ax[r_] * ax[c2] for c2 in range(3)] for r_ in range(3)])
+        rod = c_ * eye(3) + (1 - c_) * aaT + s__ * crossMat(ax)
+        q0, q1, q2, q3 = [D(x_) for x_ in qv]
+        Rq = Mat([[1 - 2*(q2*q2+q3*q3), 2*(q1*q2-q0*q3), 2*(q1*q3+q0*q2)], [2*(q1*q2+q0*q3), 1 - 2*(q1*q1+q3*q3), 2*(q2*q3-q0*q1)], [2*(q1*q3-q0*q2), 2*(q2*q3+q0*q1), 1 - 2*(q1*q1+q2*q2)]])
+        B.prove_eq("convertQuaternionToAngleAxis branch %d: Rodrigues(angle,axis) == R(q) for every unit q (canonical or not)" % npaths, rod, Rq, hyp, U6, "Quaternion_::convertQuaternionToAngleAxis", timeout_ms=T)
+        B.prove_eq("convertQuaternionToAngleAxis branch %d: returned axis is a unit vector" % npaths, ax.normSqr(), 1, hyp, U6, "Quaternion_::convertQuaternionToAngleAxis", timeout_ms=T)
+    if npaths < 3:
+        ctx.undecide("convertQuaternionToAngleAxis: only %d feasible branches explored" % npaths)
 
 
 def replay(ctx, ob):
